@@ -229,12 +229,14 @@ def r3(P: Project, R: Report) -> None:
     gp = [x for x in gate.positional_params() if x != "self"]
     R.need(len(gp) == 1, "can_process_batch parameters changed")
     d = gp[0]
-    for is_list, enabled in itertools.product((False, True), repeat=2):
-        region = {f"isinstance({d}, list)": is_list, "self.batching_enabled": enabled}
+    # the quantifier includes the empty batch: the length of the array is an atom too (0 / at least 1)
+    len_cells = [c for c in partition([0]) if c.rel(0) in (0, 1)]
+    for is_list, enabled, ln in itertools.product((False, True), (False, True), len_cells):
+        region = {f"isinstance({d}, list)": is_list, "self.batching_enabled": enabled, f"len({d})": ln, d: ("<list>" if ln.rel(0) == 1 else []) if is_list else "<object>"}
         res = decide(gate.node, region)
         vals = {(k, v) for k, v, _n in res}
         want = (not is_list) or enabled
-        R.ob("R3", f"can_process_batch(list={is_list}, enabled={enabled}) == {want}", vals == {("return", want)}, gate.where, f"yields {sorted(map(str, vals))}")
+        R.ob("R3", f"can_process_batch(list={is_list}, len{ln}, enabled={enabled}) == {want}", vals == {("return", want)}, gate.where, f"yields {sorted(map(str, vals))}")
 
     client = P.cls(A.MOD_STDIO, "StdioClient")
     meths = P.methods(client)
